@@ -3,6 +3,7 @@ mod corpus;
 mod explore;
 mod history;
 mod jsonpath;
+mod jsonstyle;
 mod programs;
 mod r#gen;
 mod lockstep;
@@ -31,13 +32,16 @@ fn main() {
         "C08" => props::c08::run(&cfg),
         "C09" => props::c09::run(&cfg),
         "C10" => props::c10::run(&cfg),
+        "C14" => props::c14::run(&cfg),
         "C15" => props::c15::run(&cfg),
         "C16" => props::c16::run(&cfg),
         "C17" => props::c17::run(&cfg),
         "C18" => props::c18::run(&cfg),
         "leakrun" => props::c18::leakrun(&cfg),
+        "C19" => props::c19::run(&cfg),
         "play" => tools::play_cmd(&args),
         "gen" => tools::gen_cmd(&cfg),
+        "loadjson" => tools::loadjson_cmd(&args),
         "classify" => tools::classify_cmd(&args),
         "minimize" => tools::minimize_cmd(&args, &cfg),
         "genprog" => tools::genprog_cmd(&cfg),
